@@ -264,10 +264,11 @@ def prov_to_dot(
                     # Fancier label if both are different. The label will be
                     # the main node text, whereas the identifier will be a
                     # kind of subtitle.
+                    # an HTML-like label: the texts must be escaped
                     node_label = (
-                        f"<{record.label}<br />"
+                        f"<{escape(str(record.label))}<br />"
                         f'<font color="#333333" point-size="10">'
-                        f'{record.identifier}</font>>'
+                        f'{escape(str(record.identifier))}</font>>'
                     )
             else:
                 node_label = f'"{record.identifier}"'
